@@ -396,6 +396,10 @@ func TestC04HealthStateMachine(t *testing.T) {
 				}
 				w.lb = lb
 				fn.Install(lb)
+				for i := 0; i < c.N; i++ {
+					fn.SetFailStatus(lab.BackendHost(i), rapid.SampledFrom([]int{500, 500, 501, 502, 503, 504, 505, 599}).Draw(rt, "fail_status"))
+					fn.SetInterimStatus(lab.BackendHost(i), rapid.SampledFrom([]int{103, 103, 100, 102}).Draw(rt, "interim_status"))
+				}
 				defer func() {
 					lb.Stop()
 					fn.ReleaseAll()
